@@ -489,8 +489,18 @@ class C04(Check):
         hist = list(hist[:fail.step + 1]) if fail.step >= 0 else []
         if hist: hist, fail = self.minimise_history(pipe, hist, fail)
         if pipe.get('duo'):
-            kinds = ','.join(KIND.get(op_split(o)[0], op_split(o)[0]) + '@' + o[-1] for o in hist) or 'none'
-            return f"Environments.{pipe['short']}() on a collection of two environments|{fail.mode}|history={kinds}", hist, pipe
+            fam = self.family(fail.mode)
+            short = pipe['short']
+            for part in short.split('_'):              # a two-step shortcut: does one of its steps alone fail the same way?
+                if part != short and part in SHORTCUTS:
+                    f2 = self.fails_like(dict(pipe, short=part), hist, fam)
+                    if f2 is not None:
+                        short, fail = part, f2; break
+            names = {}                                 # members named in the order they are first touched
+            for o in hist: names.setdefault(op_split(o)[1], 'ab'[len(names)])
+            kinds = ','.join(KIND.get(op_split(o)[0], op_split(o)[0]) + '@' + names[op_split(o)[1]] for o in hist) or 'none'
+            mode = 'a member\'s read differs from a fresh twin of that member alone' if fam == 'yields' else fail.mode
+            return f"Environments.{short}() on a collection of two environments|{mode}|history={kinds}", hist, pipe
         if pipe.get('fan') and hist:
             # the same failure on the plain pipeline  ... > Shuffle(seed of the sibling read last)  ?
             pipe2 = {'src': pipe['src'], 'chain': pipe['chain'] + [f'Shuffle{op_split(hist[-1])[1]}'], 'facade': True}
